@@ -45,7 +45,7 @@ OFold(ty, v, id, i, op) ==
       AnyTag(t) == TRUE
   IN CASE ty = "gcounter" -> [v EXCEPT !.s.inc = @ + op.n]
        [] ty = "pncounter" -> IF op.k = "inc" THEN [v EXCEPT !.s.inc = @ + op.n] ELSE [v EXCEPT !.s.dec = @ + op.n]
-       [] ty = "flag" -> [v EXCEPT !.s.en = TRUE]
+       [] ty = "flag" -> IF op.k = "enable" THEN [v EXCEPT !.s.en = TRUE] ELSE v
        [] ty = "lww" -> [v EXCEPT !.s.set = [v |-> op.x, ts |-> op.n, n |-> s.r]]
        [] ty = "mvreg" -> add(remove(AnyTag))
        [] ty \in {"orset", "ormap"} -> IF op.k \in {"add", "put"} THEN add(v) ELSE remove(SameX)
